@@ -392,6 +392,10 @@ func (t *Tree) internalDelete(subpath []string, condition func(interface{}) bool
 				// match, consistent with Query.
 				return false, nil
 			}
+			if t.leafBranch == nil {
+				// An empty node (e.g. the root of an empty tree) holds no leaf.
+				return false, nil
+			}
 			if condition(t.leafBranch) {
 				// The second parameter is an empty path that will be filled as recursion
 				// unwinds for this leaf that will be deleted in its parent.
